@@ -84,11 +84,11 @@ def cg(name, pids, mem, children=(), pressure=50.0):
 
 
 def base_tree():
-    wl = [cg("a", [], 300 << 20, [cg("x", [1000, 1001], 200 << 20), cg("y", [1010], 100 << 20)]),
+    wl = [cg("a", [], 900 << 20, [cg("x", [1000, 1001], 600 << 20), cg("y", [1010], 300 << 20)]),
           cg("b", [1100, 1101, 1102], 500 << 20),
           cg("c", [1200], 50 << 20)]
     sysd = [cg("sshd", [500], 10 << 20, pressure=1.0), cg("db", [510, 511], 800 << 20, pressure=1.0)]
-    return cg("", [], 2000 << 20, [cg("workload", [], 850 << 20, wl), cg("system", [], 810 << 20, sysd, pressure=1.0)])
+    return cg("", [], 2500 << 20, [cg("workload", [], 1450 << 20, wl), cg("system", [], 810 << 20, sysd, pressure=1.0)])
 
 
 def det(name, **args):
@@ -209,6 +209,13 @@ def gen(rng, tier):
             for t in ((0, 1, 2) if tier != "quick" else ((ki + len(path)) % 3,)):
                 for dt in (True, False):
                     yield tick_scenario(kp, recursive=True, dtype=dt, faults=[{"tick": t, "at_open": -1, "op": "vanish_on_readdir", "path": path}])
+    # the top-ranked victim (killed as a whole, it has children) is re-created at EVERY open index of the kill tick:
+    # the kill must not descend from the removed incarnation into the new cgroup of the same name
+    for kp in KILLERS[:2] if tier == "quick" else KILLERS:
+        opens = baseline_opens(kp)
+        for t in ((0, 1) if tier == "quick" else (0, 1, 2)):
+            for k in range(opens[t] if t < len(opens) else 0):
+                yield tick_scenario(kp, recursive=False, faults=[{"tick": t, "at_open": k, "op": "recreate", "path": "workload/a"}])
     # removal / re-creation at open index k
     for kp in KILLERS:
         opens = baseline_opens(kp)
